@@ -297,6 +297,9 @@ def main(argv: list[str]) -> int:
     shutil.rmtree(tmp, ignore_errors=True)
 
     nchecks = sum(s["count"] for s in oracle_stats.values())
+    slow = sorted(((r.get("wall_s", 0), r["case"].get("id")) for r in results if "case" in r), reverse=True)[:3]
+    if slow and slow[0][0] > 10:
+        print("    slowest cases:", ", ".join(f"{i} {t:.1f}s" for t, i in slow))
     print(f"[{prop}] tier={args.tier} seed={args.seed} cases={len(results)} checks={nchecks} "
           f"distinct_nontrivial={len(sigs_nontrivial)} known={len(known_seen)} wall={wall:.1f}s verdict={verdict}")
     for name, st in sorted(oracle_stats.items()):
